@@ -1,0 +1,25 @@
+//go:build verif
+
+// Contracts for the deductive verifier in /verif (comment-only; compiled only with -tags verif).
+package types
+
+// Fee-token swap arithmetic (C10). The postconditions are the property statement:
+//  - never burns more than was offered, never a negative burn;
+//  - never mints more than the burned amount is worth at the ratio and decimal scales
+//      minted / 10^so <= (burned / 10^si) * ratio      (cross-multiplied, k = si - so);
+//  - at ratio 1 exact, and the dust left with the sender is below one output unit.
+//@ func LossLessSwap
+//@   property C10
+//@   returns burned, minted
+//@   requires input > 0
+//@   requires !isnil(ratio) && raw(ratio) > 0
+//@   requires inputScale <= 18 && outputScale <= 18
+//@   let k = inputScale - outputScale
+//@   split inputScale - outputScale in -18..18
+//@   ensures nooverburn: 0 <= burned && burned <= input
+//@   ensures nonneg_mint: minted >= 0
+//@   ensures noovermint: (k >= 0 ==> minted * pow10(k) * DEC_ONE <= burned * raw(ratio))
+//@                    && (k <  0 ==> minted * DEC_ONE <= burned * raw(ratio) * pow10(0 - k))
+//@   ensures exact1: raw(ratio) == DEC_ONE ==> (k >= 0 ==> minted * pow10(k) == burned) && (k < 0 ==> minted == burned * pow10(0 - k))
+//@   ensures dust1:  raw(ratio) == DEC_ONE ==> input - burned < pow10(max(k, 0))
+//@ end
